@@ -2,15 +2,21 @@
    the generated tables and the reference parser of Grammar.v agree on every token list that is the
    yield of a syntax tree `ptree`:
 
-     query   := query orx | orx                 (juxtaposition, left spine)
+     query   := query orx | orx                 (juxtaposition, left spine; orx not starting with + - TO)
      orx     := orx OR andx | andx
      andx    := andx AND operand | operand
-     operand := NOT operand | TERM : operand | postfix
+     operand := NOT operand | + operand | - operand | TERM : operand | postfix
      postfix := postfix ^force | TERM | PHRASE | REGEX | TERM~d | PHRASE~n | ( query )
+              | TO | < value | <= value | > value | >= value          value := TERM | PHRASE
 
-   with ANY nesting depth and length.  NOT in the class: operands that START with `+`, `-` or the word
-   TO (the F4 family and its harmless relatives), ranges `[a TO b]` and `<`/`>` (not reached, see the
-   end of the file), `~`/`^` numerals that are not numbers (both parsers reject them).
+   with ANY nesting depth and length.  NOT in the class:
+     * a phrase that starts with `+`, `-` or the word TO and FOLLOWS another phrase by juxtaposition
+       (`a +b`, `+a +b`, `a AND b -c`): there the tables shift instead of reducing; after an AND/OR
+       chain that is finding F4, elsewhere the trees still agree but the driver takes another path,
+       which this proof does not follow.  Such a phrase is covered at the start of a query or group
+       and after AND, OR, NOT, `:`, `+`, `-`;
+     * ranges `[a TO b]` / `{a TO b}` (not done);
+     * `~` / `^` numerals that are not numbers (both parsers reject them).
 
    Method: one structural induction per side.  For each level of the grammar a semantic predicate says
    what the LR driver does on the yield of a subtree from every state in which such a phrase may start
@@ -30,7 +36,10 @@ Inductive ptree :=
 | PGroup (l : token) (q : ptree) (r : token)
 | PAnd (a : ptree) (o : token) (b : ptree)
 | POr (a : ptree) (o : token) (b : ptree)
-| PJuxt (a b : ptree).
+| PJuxt (a b : ptree)
+| PSign (sg : token) (p : ptree)            (* + operand / - operand *)
+| PTo (t : token)                           (* the word TO outside a range *)
+| POpen (o v : token).                      (* <v <=v >v >=v *)
 
 Fixpoint fl (p : ptree) : list token :=
   match p with
@@ -43,13 +52,16 @@ Fixpoint fl (p : ptree) : list token :=
   | PAnd a o b => fl a ++ o :: fl b
   | POr a o b => fl a ++ o :: fl b
   | PJuxt a b => fl a ++ fl b
+  | PSign sg p => sg :: fl p
+  | PTo t => [t]
+  | POpen o v => [o; v]
   end.
 
 (* grammar level: 4 postfix, 3 operand, 2 andx, 1 orx, 0 query *)
 Definition lvl (p : ptree) : nat :=
   match p with
-  | PAtom _ | PApprox _ _ | PBoost _ _ | PGroup _ _ _ => 4
-  | PNot _ _ | PField _ _ _ => 3
+  | PAtom _ | PApprox _ _ | PBoost _ _ | PGroup _ _ _ | PTo _ | POpen _ _ => 4
+  | PNot _ _ | PField _ _ _ | PSign _ _ => 3
   | PAnd _ _ _ => 2
   | POr _ _ _ => 1
   | PJuxt _ _ => 0
@@ -66,6 +78,20 @@ Definition int_ok (a : token) : bool :=
   | Some d => match int_of_lexeme d with Some _ => true | None => false end
   end.
 
+Definition is_sign_tok (t : tok) : bool := match t with T_PLUS | T_MINUS => true | _ => false end.
+Definition is_open_tok (t : tok) : bool := match t with T_LESSTHAN | T_GREATERTHAN => true | _ => false end.
+Definition is_value_tok (t : tok) : bool := match t with T_TERM | T_PHRASE => true | _ => false end.
+
+(* the phrase starts with `+`, `-` or the word TO: it must not follow another one by juxtaposition
+   (that is where the LR tables shift instead of reducing: F4 and its harmless relatives) *)
+Fixpoint signed (p : ptree) : bool :=
+  match p with
+  | PSign _ _ | PTo _ => true
+  | PBoost p _ => signed p
+  | PAnd a _ _ | POr a _ _ | PJuxt a _ => signed a
+  | _ => false
+  end.
+
 Fixpoint wfb (p : ptree) : bool :=
   match p with
   | PAtom t => is_atom_tok (tk_type t)
@@ -79,7 +105,10 @@ Fixpoint wfb (p : ptree) : bool :=
   | PGroup l q r => tok_eqb (tk_type l) T_LPAREN && tok_eqb (tk_type r) T_RPAREN && wfb q
   | PAnd a o b => tok_eqb (tk_type o) T_AND_OP && Nat.leb 2 (lvl a) && Nat.leb 3 (lvl b) && wfb a && wfb b
   | POr a o b => tok_eqb (tk_type o) T_OR_OP && Nat.leb 1 (lvl a) && Nat.leb 2 (lvl b) && wfb a && wfb b
-  | PJuxt a b => Nat.leb 1 (lvl b) && wfb a && wfb b
+  | PJuxt a b => Nat.leb 1 (lvl b) && wfb a && wfb b && negb (signed b)
+  | PSign sg p => is_sign_tok (tk_type sg) && Nat.leb 3 (lvl p) && wfb p
+  | PTo t => tok_eqb (tk_type t) T_TO
+  | POpen o v => is_open_tok (tk_type o) && is_value_tok (tk_type v)
   end.
 
 Lemma tok_eqb_eq a b : tok_eqb a b = true -> a = b.
@@ -127,6 +156,9 @@ Definition boost_item (e : item) (b : token) : item :=
 Definition fieldgroup (x : item) : item :=
   match x with Grp KGroup m e => Grp KFieldGroup m e | _ => x end.
 
+Definition sign_kind (sg : token) : unk := match tk_type sg with T_PLUS => KPlus | _ => KProhibit end.
+Definition open_kind (o : token) : ork := match tk_type o with T_LESSTHAN => KTo | _ => KFrom end.
+
 (* value and the operand lists of the three chains, computed together *)
 Record sem := mkSem { sv : item; sa : list item; so : list item; sj : list item }.
 Definition leaf (v : item) : sem := mkSem v [v] [v] [v].
@@ -145,6 +177,9 @@ Fixpoint semof (p : ptree) : sem :=
                  let v := nary KOr ops in mkSem v [v] ops [v]
   | PJuxt a b => let ops := sj (semof a) ++ [sv (semof b)] in
                  let v := nary KUnknown ops in mkSem v [v] [v] ops
+  | PSign sg p => leaf (Unary (sign_kind sg) meta0 (sv (semof p)))
+  | PTo t => leaf (word (tk_lexeme t))
+  | POpen o v => leaf (ORange (open_kind o) meta0 (atom_item v) (mem_N c_eq (tk_lexeme o)))
   end.
 Definition val (p : ptree) : item := sv (semof p).
 Definition ops_and (p : ptree) : list item := sa (semof p).
@@ -189,6 +224,9 @@ Proof.
   - eexists. unfold val. simpl. apply nary_snoc. apply ops_and_ne.
   - eexists. unfold val. simpl. apply nary_snoc. apply ops_or_ne.
   - eexists. unfold val. simpl. apply nary_snoc. apply ops_j_ne.
+  - intros _ k. reflexivity.
+  - intros _ k. reflexivity.
+  - intros _ k. reflexivity.
 Qed.
 
 Lemma val_notop p k : wfb p = true -> 3 <= lvl p -> same_op k (val p) = false.
@@ -251,7 +289,7 @@ Qed.
 
 (* ================================================================ lookahead sets *)
 Definition OPSTART : list tok :=
-  [T_TERM; T_PHRASE; T_REGEX; T_NOT; T_LPAREN].
+  [T_TERM; T_PHRASE; T_REGEX; T_NOT; T_LPAREN; T_LESSTHAN; T_GREATERTHAN].
 Definition L1 : list tok := OPSTART ++ [T_EOF; T_RPAREN].     (* after an orx *)
 Definition L2 : list tok := T_OR_OP :: L1.                     (* after an andx *)
 Definition L3 : list tok := T_AND_OP :: L2.                    (* after an operand *)
@@ -266,15 +304,20 @@ Definition starts (ts : list token) : Prop := exists t r, ts = t :: r /\ In (tk_
 Lemma starts_app ts r : starts ts -> starts (ts ++ r).
 Proof. intros [t [r0 [-> H]]]. exists t, (r0 ++ r). split; [reflexivity|exact H]. Qed.
 
-Lemma fl_starts p : wfb p = true -> starts (fl p).
+Lemma fl_starts p : wfb p = true -> signed p = false -> starts (fl p).
 Proof.
-  induction p; intros W; wf_split W; simpl fl; try (apply starts_app; auto; fail).
+  induction p; intros W Hs; wf_split W; simpl fl; simpl in Hs; try discriminate;
+    try (apply starts_app; auto; fail).
   - exists t, []. split; [reflexivity|]. destruct (tk_type t); try discriminate; simpl; auto.
   - exists t, [a]. split; [reflexivity|]. destruct (tk_type t); try discriminate; simpl; auto.
   - exists n, (fl p). split; [reflexivity|]. rewrite W. simpl; tauto.
   - exists name, (col :: fl p). split; [reflexivity|]. rewrite W. simpl; tauto.
   - exists l, (fl p ++ [r]). split; [reflexivity|]. rewrite W. simpl; tauto.
+  - exists o, [v]. split; [reflexivity|]. destruct (tk_type o); try discriminate; simpl; tauto.
 Qed.
+
+Lemma fl_len p : 1 <= length (fl p).
+Proof. induction p; simpl; rewrite ?app_length; simpl; lia. Qed.
 
 Lemma la_starts L ts r : starts ts -> incl OPSTART L -> la_in L (ts ++ r).
 Proof. intros [t [r0 [-> H]]] HL. unfold la_in. simpl. apply HL. exact H. Qed.
@@ -292,7 +335,12 @@ Definition SNOT : nat := shift_on 0 T_NOT.                     (* NOT .         
 Definition STERM : nat := shift_on 0 T_TERM.                   (* TERM .                *)
 Definition SCOL : nat := shift_on STERM T_COLUMN.              (* TERM : .              *)
 
-Definition UC : list nat := [S0; SLP; SJ; SJP; SOR; SAND; SNOT; SCOL].   (* an operand may start *)
+Definition SPLUS : nat := shift_on 0 T_PLUS.                   (* + .                   *)
+Definition SMINUS : nat := shift_on 0 T_MINUS.                 (* - .                   *)
+Definition SLT : nat := shift_on 0 T_LESSTHAN.                 (* < .                   *)
+Definition SGT : nat := shift_on 0 T_GREATERTHAN.              (* > .                   *)
+
+Definition UC : list nat := [S0; SLP; SJ; SJP; SOR; SAND; SNOT; SCOL; SPLUS; SMINUS].   (* an operand may start *)
 Definition XC : list nat := [S0; SLP; SJ; SJP; SOR; SAND].               (* an expression may start *)
 Definition XCA : list nat := [S0; SLP; SJ; SJP; SOR].                    (* an andx may start *)
 Definition XCO : list nat := [S0; SLP; SJ; SJP].                         (* an orx may start *)
@@ -354,6 +402,43 @@ Lemma T_group : forall s, In s UC ->
     nth_error gen_prods p = Some (U, [ST T_LPAREN; SN E; ST T_RPAREN], A_grouping).
 Proof. each_state; (split; [reflexivity|]); eexists; (split; [reflexivity|]); each_la; red_fact. Qed.
 
+Lemma T_sign : forall s, In s UC ->
+  gen_action s T_PLUS = Shift SPLUS /\ gen_action s T_MINUS = Shift SMINUS /\
+  forall la, In la L3 ->
+    (exists p, gen_action (gotoU SPLUS) la = Reduce (S p) /\
+       nth_error gen_prods p = Some (U, [ST T_PLUS; SN U], A_expression_plus)) /\
+    (exists p, gen_action (gotoU SMINUS) la = Reduce (S p) /\
+       nth_error gen_prods p = Some (U, [ST T_MINUS; SN U], A_expression_minus)).
+Proof. each_state; (split; [reflexivity|]); (split; [reflexivity|]); each_la; split; red_fact. Qed.
+
+Lemma T_to : forall s, In s UC ->
+  exists n, gen_action s T_TO = Shift n /\
+  forall la, In la L3B -> exists p, gen_action n la = Reduce (S p) /\
+    nth_error gen_prods p = Some (U, [ST T_TO], A_to_as_term).
+Proof. each_state; eexists; (split; [reflexivity|]); each_la; red_fact. Qed.
+
+Definition POT := N_phrase_or_term.
+Lemma T_open : forall s, In s UC ->
+  gen_action s T_LESSTHAN = Shift SLT /\ gen_action s T_GREATERTHAN = Shift SGT /\
+  forall a, is_value_tok a = true ->
+    (exists n g, gen_action SLT a = Shift n /\ gen_goto SLT POT = Some g /\
+       forall la, In la L3B ->
+         (exists p, gen_action n la = Reduce (S p) /\
+            nth_error gen_prods p = Some (POT, [ST a], A_phrase_or_term)) /\
+         (exists p, gen_action g la = Reduce (S p) /\
+            nth_error gen_prods p = Some (U, [ST T_LESSTHAN; SN POT], A_lessthan))) /\
+    (exists n g, gen_action SGT a = Shift n /\ gen_goto SGT POT = Some g /\
+       forall la, In la L3B ->
+         (exists p, gen_action n la = Reduce (S p) /\
+            nth_error gen_prods p = Some (POT, [ST a], A_phrase_or_term)) /\
+         (exists p, gen_action g la = Reduce (S p) /\
+            nth_error gen_prods p = Some (U, [ST T_GREATERTHAN; SN POT], A_greaterthan))).
+Proof.
+  each_state; (split; [reflexivity|]); (split; [reflexivity|]);
+    intros a Ha; destruct a; try discriminate Ha;
+    (split; eexists; eexists; (split; [reflexivity|]); (split; [reflexivity|]); each_la; split; red_fact).
+Qed.
+
 Lemma T_expr : forall s, In s XC ->
   gen_goto s E = Some (gotoE s) /\
   forall la, In la L3 -> exists p, gen_action (gotoU s) la = Reduce (S p) /\
@@ -383,7 +468,7 @@ Qed.
 Lemma T_accept : gen_action (gotoE S0) T_EOF = Accept.
 Proof. reflexivity. Qed.
 
-Global Opaque SLP SJP SNOT STERM SCOL gotoU.
+Global Opaque SLP SJP SNOT STERM SCOL SPLUS SMINUS SLT SGT gotoU.
 
 Lemma incl_XC_UC : incl XC UC. Proof. intros x H. simpl in *. tauto. Qed.
 Lemma incl_XCA_XC : incl XCA XC. Proof. intros x H. simpl in *. tauto. Qed.
@@ -394,6 +479,8 @@ Lemma in_SOR_XCA : In SOR XCA. Proof. simpl. tauto. Qed.
 Lemma in_SNOT_UC : In SNOT UC. Proof. simpl. tauto. Qed.
 Lemma in_SCOL_UC : In SCOL UC. Proof. simpl. tauto. Qed.
 Lemma in_SLP_XCJ : In SLP XCJ. Proof. simpl. tauto. Qed.
+Lemma in_SPLUS_UC : In SPLUS UC. Proof. simpl. tauto. Qed.
+Lemma in_SMINUS_UC : In SMINUS UC. Proof. simpl. tauto. Qed.
 Lemma in_S0_XCJ : In S0 XCJ. Proof. simpl. tauto. Qed.
 
 (* ================================================================ the LR driver, level by level *)
@@ -566,6 +653,71 @@ Proof.
   - simpl. rewrite erase_add_head, erase_fg, Hx. reflexivity.
 Qed.
 
+Lemma lr_sign sg ts v : LR3 ts v -> is_sign_tok (tk_type sg) = true ->
+  LR3 (sg :: ts) (Unary (sign_kind sg) meta0 v).
+Proof.
+  intros H Hsg s ss vals rest d Hs Hla. simpl app.
+  destruct (T_sign s Hs) as [Hp [Hm Hred]]. destruct (Hred _ Hla) as [[p1 [Hp1 Hprod1]] [p2 [Hp2 Hprod2]]].
+  destruct (plain_value sg) as [nl [nv [nm En]]];
+    try (intros E; rewrite E in Hsg; discriminate).
+  unfold sign_kind. destruct (tk_type sg) eqn:Et; try discriminate.
+  - destruct (H SMINUS (s :: ss) (token_value sg :: vals) rest d in_SMINUS_UC Hla) as [x [d1 [Hrun Hx]]].
+    eexists. eexists. split.
+    + eapply reach_trans; [apply reach_step, step_shift; rewrite Et; exact Hm|].
+      eapply reach_trans; [exact Hrun|].
+      apply reach_step. eapply step_reduce2; [exact Hp2|exact Hprod2| |apply T_gotoU; exact Hs].
+      rewrite En. reflexivity.
+    + simpl. rewrite erase_add_head, Hx. reflexivity.
+  - destruct (H SPLUS (s :: ss) (token_value sg :: vals) rest d in_SPLUS_UC Hla) as [x [d1 [Hrun Hx]]].
+    eexists. eexists. split.
+    + eapply reach_trans; [apply reach_step, step_shift; rewrite Et; exact Hp|].
+      eapply reach_trans; [exact Hrun|].
+      apply reach_step. eapply step_reduce2; [exact Hp1|exact Hprod1| |apply T_gotoU; exact Hs].
+      rewrite En. reflexivity.
+    + simpl. rewrite erase_add_head, Hx. reflexivity.
+Qed.
+
+Lemma lr_to t : tk_type t = T_TO -> LR4 [t] (word (tk_lexeme t)).
+Proof.
+  intros Ht s ss vals rest d Hs Hla.
+  destruct (T_to s Hs) as [n [Hn Hred]]. destruct (Hred _ Hla) as [p [Hp Hprod]].
+  eexists. eexists. split.
+  - eapply reach_trans; [apply reach_step, step_shift; rewrite Ht; exact Hn|].
+    apply reach_step. eapply step_reduce1; [exact Hp|exact Hprod| |apply T_gotoU; exact Hs].
+    unfold token_value. rewrite Ht. reflexivity.
+  - reflexivity.
+Qed.
+
+Lemma lr_open o v : is_open_tok (tk_type o) = true -> is_value_tok (tk_type v) = true ->
+  LR4 [o; v] (ORange (open_kind o) meta0 (atom_item v) (mem_N c_eq (tk_lexeme o))).
+Proof.
+  intros Ho Hv s ss vals rest d Hs Hla.
+  destruct (T_open s Hs) as [Hlt [Hgt Hrest]]. destruct (Hrest _ Hv) as [[n1 [g1 [Hn1 [Hg1 Hr1]]]] [n2 [g2 [Hn2 [Hg2 Hr2]]]]].
+  destruct (Hr1 _ Hla) as [[p1 [Hp1 Hprod1]] [q1 [Hq1 Hqprod1]]].
+  destruct (Hr2 _ Hla) as [[p2 [Hp2 Hprod2]] [q2 [Hq2 Hqprod2]]].
+  assert (Ev : exists i, token_value v = VItem i /\ erase i = atom_item v).
+  { unfold token_value, atom_item. destruct (tk_type v); try discriminate; eexists; split; reflexivity. }
+  destruct Ev as [x [Ex Hx]].
+  assert (Eo : exists m, token_value o = VTok (tk_lexeme o) (Some (tk_lexeme o)) m).
+  { unfold token_value. destruct (tk_type o); try discriminate; eexists; reflexivity. }
+  destruct Eo as [mo Eo].
+  unfold open_kind. destruct (tk_type o) eqn:Et; try discriminate.
+  - eexists. eexists. split.
+    + eapply reach_trans; [apply reach_step, step_shift; rewrite Et; exact Hlt|].
+      eapply reach_trans; [apply reach_step, step_shift; exact Hn1|].
+      eapply reach_trans; [apply reach_step; eapply step_reduce1; [exact Hp1|exact Hprod1|reflexivity|exact Hg1]|].
+      apply reach_step. eapply step_reduce2; [exact Hq1|exact Hqprod1| |apply T_gotoU; exact Hs].
+      rewrite Eo, Ex. reflexivity.
+    + simpl. rewrite erase_add_head, Hx. reflexivity.
+  - eexists. eexists. split.
+    + eapply reach_trans; [apply reach_step, step_shift; rewrite Et; exact Hgt|].
+      eapply reach_trans; [apply reach_step, step_shift; exact Hn2|].
+      eapply reach_trans; [apply reach_step; eapply step_reduce1; [exact Hp2|exact Hprod2|reflexivity|exact Hg2]|].
+      apply reach_step. eapply step_reduce2; [exact Hq2|exact Hqprod2| |apply T_gotoU; exact Hs].
+      rewrite Eo, Ex. reflexivity.
+    + simpl. rewrite erase_add_head, Hx. reflexivity.
+Qed.
+
 (* ---- the three chains *)
 Lemma lr_and ta tb o acc vb :
   LR2 ta (nary KAnd acc) -> LR3 tb vb -> tk_type o = T_AND_OP ->
@@ -674,10 +826,14 @@ Proof.
     change (val (POr p1 o p2)) with (nary KOr (ops_or p1 ++ [val p2])).
     apply lr_or; auto; [rewrite val_or; auto|apply ops_or_ne|apply ops_or_ok; assumption|
                         apply val_not_or; assumption].
-  - apply lr_from0; [reflexivity|]. destruct (IHp1 W1) as [_ [_ [_ [_ H0]]]]. destruct (IHp2 W0) as [_ [_ [_ [H1 _]]]].
+  - apply lr_from0; [reflexivity|]. destruct (IHp1 W2) as [_ [_ [_ [_ H0]]]]. destruct (IHp2 W1) as [_ [_ [_ [H1 _]]]].
     change (val (PJuxt p1 p2)) with (nary KUnknown (ops_j p1 ++ [val p2])).
+    apply Bool.negb_true_iff in W0.
     apply lr_j; auto; [rewrite val_j; auto|apply fl_starts; assumption|apply ops_j_ne|
                        apply ops_j_ok; assumption|apply val_not_j; assumption].
+  - apply lr_from3; [reflexivity|]. destruct (IHp W0) as [_ [H3 _]]. apply lr_sign; auto.
+  - apply lr_from4. apply lr_to. exact W.
+  - apply lr_from4. apply lr_open; assumption.
 Qed.
 
 (* the whole input: accepted, with the dictated tree up to layout *)
@@ -870,6 +1026,38 @@ Proof.
   rewrite (H f rest Hla) by lia. reflexivity.
 Qed.
 
+Lemma sp_sign sg ts v : SP3 ts v -> is_sign_tok (tk_type sg) = true ->
+  SP3 (sg :: ts) (Unary (sign_kind sg) meta0 v).
+Proof.
+  intros H Hsg f rest Hla Hf. simpl length in Hf. destruct f as [|f]; [lia|].
+  simpl app. change (keys_of (sg :: ts ++ rest)) with (tok_key sg :: keys_of (ts ++ rest)).
+  unfold tok_key at 1. unfold sign_kind. destruct (tk_type sg) eqn:Et; try discriminate.
+  - change (level (S (S f)) 3 ((T_MINUS, tk_lexeme sg) :: keys_of (ts ++ rest)))
+      with (match level (S f) 3 (keys_of (ts ++ rest)) with
+            | Some (x, r) => Some (Unary KProhibit meta0 x, r) | None => None end).
+    rewrite (H f rest Hla) by lia. reflexivity.
+  - change (level (S (S f)) 3 ((T_PLUS, tk_lexeme sg) :: keys_of (ts ++ rest)))
+      with (match level (S f) 3 (keys_of (ts ++ rest)) with
+            | Some (x, r) => Some (Unary KPlus meta0 x, r) | None => None end).
+    rewrite (H f rest Hla) by lia. reflexivity.
+Qed.
+
+Lemma sp_to t : tk_type t = T_TO -> SP4 [t] (word (tk_lexeme t)).
+Proof.
+  intros Ht f rest Hla Hf. exists f. split; [lia|].
+  simpl app. change (keys_of (t :: rest)) with (tok_key t :: keys_of rest). unfold tok_key at 1. rewrite Ht.
+  reflexivity.
+Qed.
+
+Lemma sp_open o v : is_open_tok (tk_type o) = true -> is_value_tok (tk_type v) = true ->
+  SP4 [o; v] (ORange (open_kind o) meta0 (atom_item v) (mem_N c_eq (tk_lexeme o))).
+Proof.
+  intros Ho Hv f rest Hla Hf. exists f. split; [lia|].
+  simpl app. change (keys_of (o :: v :: rest)) with (tok_key o :: tok_key v :: keys_of rest).
+  unfold tok_key at 1 2. unfold open_kind, atom_item.
+  destruct (tk_type o); try discriminate; destruct (tk_type v); try discriminate; reflexivity.
+Qed.
+
 (* ---- the three chains *)
 Lemma sp_and ta tb o acc vb : SP2 ta acc -> SP3 tb vb -> tk_type o = T_AND_OP -> SP2 (ta ++ o :: tb) (acc ++ [vb]).
 Proof.
@@ -915,13 +1103,10 @@ Definition SP_all (p : ptree) : Prop :=
   (lvl p = 4 -> SP4 (fl p) (val p)) /\ (3 <= lvl p -> SP3 (fl p) (val p)) /\
   (2 <= lvl p -> SP2 (fl p) (ops_and p)) /\ (1 <= lvl p -> SP1 (fl p) (ops_or p)) /\ SP0 (fl p) (ops_j p).
 
-Lemma fl_len p : wfb p = true -> 1 <= length (fl p).
-Proof. intros W. destruct (fl_starts p W) as [t [r [-> _]]]. simpl. lia. Qed.
-
 Lemma sp_from3 p : wfb p = true -> 3 <= lvl p -> SP3 (fl p) (val p) ->
   SP2 (fl p) (ops_and p) /\ SP1 (fl p) (ops_or p) /\ SP0 (fl p) (ops_j p).
 Proof.
-  intros W Hl H3. pose proof (fl_len p W) as Hn.
+  intros W Hl H3. pose proof (fl_len p) as Hn.
   assert (Ea : ops_and p = [val p]) by (destruct p; simpl in Hl; try lia; reflexivity).
   assert (Eo : ops_or p = [val p]) by (destruct p; simpl in Hl; try lia; reflexivity).
   assert (Ej : ops_j p = [val p]) by (destruct p; simpl in Hl; try lia; reflexivity).
@@ -931,7 +1116,7 @@ Qed.
 
 Lemma sp_from4 p : wfb p = true -> lvl p = 4 -> SP4 (fl p) (val p) -> SP_all p.
 Proof.
-  intros W Hl H4. pose proof (sp4_3 _ _ H4 (fl_len p W)) as H3.
+  intros W Hl H4. pose proof (sp4_3 _ _ H4 (fl_len p)) as H3.
   destruct (sp_from3 p W ltac:(lia) H3) as [H2 [H1 H0]]. repeat split; auto.
 Qed.
 Lemma sp_from3' p : wfb p = true -> lvl p = 3 -> SP3 (fl p) (val p) -> SP_all p.
@@ -950,28 +1135,31 @@ Proof.
   - apply sp_from3'; auto. destruct (IHp W0) as [_ [H3 _]]. apply sp_field; auto.
   - apply sp_from4; auto. destruct (IHp W0) as [_ [_ [_ [_ H0]]]].
     change (val (PGroup l p r)) with (Grp KGroup meta0 (val p)). rewrite <- val_j.
-    apply sp_group; auto. apply fl_len. exact W0.
+    apply sp_group; auto. apply fl_len.
   - destruct (IHp1 W1) as [_ [_ [H2a _]]]. destruct (IHp2 W0) as [_ [H3b _]].
     assert (H2 : SP2 (fl (PAnd p1 o p2)) (ops_and (PAnd p1 o p2))) by (apply sp_and; auto).
-    pose proof (fl_len _ W') as Hn.
+    pose proof (fl_len (PAnd p1 o p2)) as Hn.
     pose proof (sp2_1 _ _ H2 Hn) as H1. pose proof (sp1_0 _ _ H1 Hn) as H0.
     repeat split; auto; simpl; intros; lia.
   - destruct (IHp1 W1) as [_ [_ [_ [H1a _]]]]. destruct (IHp2 W0) as [_ [_ [H2b _]]].
     assert (H1 : SP1 (fl (POr p1 o p2)) (ops_or (POr p1 o p2))).
     { change (ops_or (POr p1 o p2)) with (ops_or p1 ++ [val p2]). rewrite <- val_and.
-      apply sp_or; auto. apply fl_len. exact W0. }
-    pose proof (fl_len _ W') as Hn. pose proof (sp1_0 _ _ H1 Hn) as H0.
+      apply sp_or; auto. apply fl_len. }
+    pose proof (fl_len (POr p1 o p2)) as Hn. pose proof (sp1_0 _ _ H1 Hn) as H0.
     repeat split; auto; simpl; intros; lia.
-  - destruct (IHp1 W1) as [_ [_ [_ [_ H0a]]]]. destruct (IHp2 W0) as [_ [_ [_ [H1b _]]]].
+  - destruct (IHp1 W2) as [_ [_ [_ [_ H0a]]]]. destruct (IHp2 W1) as [_ [_ [_ [H1b _]]]].
     assert (H0 : SP0 (fl (PJuxt p1 p2)) (ops_j (PJuxt p1 p2))).
     { change (ops_j (PJuxt p1 p2)) with (ops_j p1 ++ [val p2]). rewrite <- val_or.
-      apply sp_j; auto. apply fl_starts. exact W0. }
+      apply Bool.negb_true_iff in W0. apply sp_j; auto. apply fl_starts; assumption. }
     repeat split; auto; simpl; intros; lia.
+  - apply sp_from3'; auto. destruct (IHp W0) as [_ [H3 _]]. apply sp_sign; auto.
+  - apply sp_from4; auto. apply sp_to. exact W.
+  - apply sp_from4; auto. apply sp_open; assumption.
 Qed.
 
 Theorem sp_query p : wfb p = true -> spec_parse (keys_of (fl p)) = Some (val p).
 Proof.
-  intros W. destruct (sp_sound p W) as [_ [_ [_ [_ H0]]]]. pose proof (fl_len p W) as Hn.
+  intros W. destruct (sp_sound p W) as [_ [_ [_ [_ H0]]]]. pose proof (fl_len p) as Hn.
   assert (El : length (keys_of (fl p)) = length (fl p)) by apply map_length.
   unfold spec_parse. rewrite El.
   replace (4 * length (fl p) + 8) with (S (S (S (S (4 * length (fl p) + 4))))) by lia.
